@@ -258,6 +258,61 @@ def f4_lost_slot_writes(F, r):
         raise AnchorError(f"only {n} written Dimensions locals found")
 
 
+def p1_lilim_pairing(F, r):
+    """Li&Lim: every customer with a positive demand is a pickup paired with the delivery named in its relation column; the job lists the pickup first"""
+    from . import c01
+    roots = [i for i in F.fns if "lilim::reader" in i and i.endswith("::read_jobs") and F.fns[i]["kind"] != "Closure"]
+    if len(roots) != 1:
+        raise AnchorError(f"lilim read_jobs resolves to {roots}")
+    root = roots[0]
+    fn = F.fns[root]
+    rel = [(bi, st) for bi, si, st in mir.stmts(fn) if st["r"]["k"] == "agg" and st["r"].get("n", "").endswith("Relation#Relation")]
+    if len(rel) != 1:
+        raise AnchorError(f"read_jobs: {len(rel)} Relation constructions")
+    bi, st = rel[0]
+    fs = st["r"].get("fs") or []
+    ex = {f: mir.expr(fn, o) for f, o in zip(fs, st["r"]["o"])}
+    if set(fs) != {"pickup", "delivery"}:
+        raise AnchorError(f"Relation fields {fs}")
+    same_rec = ex["pickup"][0] == ex["delivery"][0] and ex["pickup"][1][:-1] == ex["delivery"][1][:-1]
+    if same_rec and ex["pickup"][1][-1] == ".id" and ex["delivery"][1][-1] == ".relation":
+        r.ok("read_jobs: relation", "pickup = customer.id, delivery = customer.relation of the same record")
+    else:
+        r.fail("read_jobs: relation", f"the pickup/delivery pair is not (customer.id, customer.relation) of one record (pickup from `{ex['pickup'][1][-1:]}`, delivery from `{ex['delivery'][1][-1:]}`): "
+               "requests are paired with the wrong sibling", F.loc(root, st.get("ln")))
+    guards = []
+    for bj, sj, s2 in mir.stmts(fn):
+        rv = s2["r"]
+        if rv["k"] == "bin" and rv["op"] in ("Gt", "Lt", "Ge", "Le", "Ne"):
+            a, b = mir.expr(fn, rv["o"][0]), mir.expr(fn, rv["o"][1])
+            if a[1][-1:] == (".demand",) and b[0] == ("const", "0_i32"):
+                guards.append((rv["op"], bj, s2))
+            elif b[1][-1:] == (".demand",) and a[0] == ("const", "0_i32"):
+                guards.append(({"Gt": "Lt", "Lt": "Gt", "Ge": "Le", "Le": "Ge", "Ne": "Ne"}[rv["op"]], bj, s2))
+    if len(guards) != 1:
+        r.fail("read_jobs: pickup test", f"{len(guards)} comparisons of the demand with zero decide which customers are pickups", F.loc(root))
+    else:
+        op, bj, s2 = guards[0]
+        sw = [sb for sb, bb in enumerate(fn["bbs"]) if bb["t"]["k"] == "switch" and mir.is_place(bb["t"]["o"]) and bb["t"]["o"]["l"] == s2["d"]["l"]]
+        ok = op == "Gt" and len(sw) == 1 and bi in mir.reach(fn, [fn["bbs"][sw[0]]["t"]["else"]], blocked={sw[0]}) and \
+            bi not in mir.reach(fn, [x for v, x in fn["bbs"][sw[0]]["t"]["tg"] if v == 0], blocked={sw[0]})
+        if ok:
+            r.ok("read_jobs: pickup test", "a relation is recorded exactly for customers with demand > 0")
+        else:
+            r.fail("read_jobs: pickup test", f"relations are recorded on `demand {op} 0` (or not on the true side): deliveries (negative demand) or the depot create requests too, or pickups are skipped", F.loc(root, s2.get("ln")))
+    arr = [(g, st2) for g in F.family(root) for _, _, st2 in mir.stmts(F.fns[g]) if st2["r"]["k"] == "agg" and st2["r"].get("ak") == "array" and len(st2["r"]["o"]) == 2]
+    if len(arr) != 1:
+        r.ok("read_jobs: order", "not decided: the two sub-jobs are not built as a two-element array")
+        return
+    g, st2 = arr[0]
+    gfn = F.fns[g]
+    t0, t1 = c01._toks(gfn, st2["r"]["o"][0]), c01._toks(gfn, st2["r"]["o"][1])
+    if "pickup" in t0 and "delivery" not in t0 and "delivery" in t1 and "pickup" not in t1:
+        r.ok("read_jobs: order", "[pickup, delivery]")
+    else:
+        r.fail("read_jobs: order", "the multi job does not list the pickup customer first and the delivery customer second: precedence is reversed or both parts are the same customer", F.loc(g, st2.get("ln")))
+
+
 def run(ctx):
     ctx.explanation = (
         "Structural faithfulness of the scientific readers: every field of the parse records (and every builder parameter) is consumed when the problem "
@@ -267,5 +322,6 @@ def run(ctx):
     ctx.not_decided = "numeric equality of parsed values, Li&Lim pairing, initial-solution round trip."
     ctx.run("C13-F1", "record-field / builder-parameter liveness and distinct sources", f1_record_liveness, floor=15)
     ctx.run("C13-F2", "load type agreement; essential features (capacity, transport with time windows)", f2_load_types_and_features, floor=8)
+    ctx.run("C13-P1", "Li&Lim pairing: relation (id, relation) for demand > 0; sub-jobs [pickup, delivery]", p1_lilim_pairing, floor=3)
     ctx.run("C13-F3", "rounding flag selects between rounded and raw Euclidean distance", f3_rounding_flag, floor=2)
     ctx.run("C13-F4", "no lost slot writes: written Dimensions are moved on", f4_lost_slot_writes, floor=5)
